@@ -15,6 +15,10 @@ HASH_SENSITIVE = [
     "@a{1%kg} @a{2%g} @&a{3%lb} @b{1%cup} @&b{1%l} @c @&c{1} @&c{x} #p #&p{2} ~{5%min}\n",
     ">> [duplicate]: ref\n@a{1} @a{2} @A{3} @b @a{4%g}\n\n>> [mode]: steps\n@a @b @z\n",
     "@&missing @&(~3)x{} @a(n) @&a(m) #p{1%kg} ~{}\n",
+    "#&pot{} and #&lid\n",
+    "Mix @&sauce{} well\n",
+    "~{10%min} then ~{5%Min} and 15 MIN or 2 KG, 3 kg\n",
+    "~{5%Min} @a{1%Kg} 15 MIN\n",
     ">> servings: 2|4\n>> tags: a, b, a\n>> author: Me <https://me.example>\n>> locale: en_GB\n@x{1 1/2%cups} @y{0.333%cup} @z{7%oz}\n",
 ]
 
@@ -33,12 +37,34 @@ def check_c18(ctx):
     runs = 12 if quick else 60
     trace = os.path.join(ctx.work, "shared.ndjson")
     events = 0
+    # baselines from pristine processes: one process per (operation, input, configuration), so that not even
+    # process-wide state (a static, a thread local, a lazily built table) of an earlier call can be in them
+    import subprocess
+    from concurrent.futures import ThreadPoolExecutor
+    CONFIGS = [("all", "b"), ("none", "e"), ("compat", "b")]
+    basefile = {}
+    for ext, conv in CONFIGS:
+        jobs = [(op, i) for op in ("parse", "meta", "validated", "scale") for i in range(len(texts))]
+
+        def one(job, ext=ext, conv=conv):
+            p = subprocess.run([core.BIN, "shared", "--in", pin, "--ext", ext, "--conv", conv, "--one", f"{job[0]}:{job[1]}"],
+                               stdout=subprocess.PIPE, stderr=subprocess.PIPE, text=True, timeout=120)
+            if p.returncode != 0:
+                raise core.ToolError(f"baseline process failed: {p.stderr[-500:]}")
+            return p.stdout.strip().splitlines()[-1]
+        with ThreadPoolExecutor(max_workers=8) as ex:
+            lines = list(ex.map(one, jobs))
+        bf = os.path.join(ctx.work, f"base_{ext}_{conv}.ndjson")
+        with open(bf, "w") as f:
+            f.write("\n".join(lines) + "\n")
+        basefile[(ext, conv)] = bf
+    ctx.extra["pristine_baseline_processes"] = sum(1 for _ in basefile) * 4 * len(texts)
     with open(trace, "w") as out:
         for k in range(runs):
             po = os.path.join(ctx.work, f"run{k}.ndjson")
-            ext, conv = [("all", "b"), ("none", "e"), ("compat", "b")][k % 3]
+            ext, conv = CONFIGS[k % 3]
             core.run_harness(ctx, ["shared", "--in", pin, "--out", po, "--threads", "8", "--calls", "60" if quick else "150",
-                                   "--ext", ext, "--conv", conv], env={"VERIF_SEED": str(ctx.seed + k)})
+                                   "--ext", ext, "--conv", conv, "--base", basefile[(ext, conv)]], env={"VERIF_SEED": str(ctx.seed + k)})
             with open(po) as f:
                 for line in f:
                     out.write(line)
